@@ -1,6 +1,8 @@
 import RimeModel.Basic.Hex
 import RimeModel.Session.Api
 import RimeModel.Session.Compose
+import RimeModel.Session.PunctCompose
+import RimeModel.Session.Shape
 import RimeModel.C16.Model
 /-! Line-protocol driver for M-session (same protocol as harness/session_harness.cc). -/
 open RimeModel RimeModel.Session
@@ -50,9 +52,29 @@ def hexD (s : String) : Bytes := (Hex.decode s).getD []
 def parseProc (s : String) : Proc :=
   match s with
   | "speller" => .speller | "selector" => .selector | "navigator" => .navigator
-  | "express_editor" => .expressEditor | "fluid_editor" => .fluidEditor | _ => .other
+  | "express_editor" => .expressEditor | "fluid_editor" => .fluidEditor | "punctuator" => .punctuator | _ => .other
 
-def mkSchema (st : DState) (id : String) : Option SchemaCfg :=
+/-- one entry `<key byte>:<kind>:<text>,<text>…` of a punctuation mapping (hex; kinds u = scalar, l = list,
+c = {commit: t}, p = {pair: [a, b]}) -/
+def parsePunctEntry (e : String) : Option (UInt8 × PunctDef) :=
+  match e.splitOn ":" with
+  | [k, kind, ts] => do
+    let kb ← Hex.decode k
+    let texts ← if ts == "-" then some [] else (ts.splitOn ",").mapM Hex.decode
+    match kb, kind, texts with
+    | [b], "u", [t] => some (b, .unique t)
+    | [b], "c", [t] => some (b, .commit t)
+    | [b], "p", [x, y] => some (b, .pair x y)
+    | [b], "l", l => some (b, .alt l)
+    | _, _, _ => none
+  | _ => none
+
+/-- `-` = no mapping; entries separated by `;` -/
+def parsePunctMap (s : String) : Option (List (UInt8 × PunctDef)) :=
+  if s == "-" || s == "" then some [] else (s.splitOn ";").mapM parsePunctEntry
+
+/-- the schema in the environment of one value of `full_shape` (see Session/Shape.lean) -/
+def mkSchema (st : DState) (id : String) (full : Bool := false) : Option SchemaCfg :=
   match st.schemas.find? (·.1 == id) with
   | none => none
   | some (_, kvs) =>
@@ -61,24 +83,36 @@ def mkSchema (st : DState) (id : String) : Option SchemaCfg :=
     let initials0 := hexD (kv kvs "initials")
     let initials := if initials0 = [] then alphabet else initials0
     let uniq := kv kvs "uniq" == "1"
-    let scfg : SegCfg := { alphabet := alphabet, initials := initials, finals := hexD (kv kvs "finals"),
-                           delimiters := hexD (kv kvs "delimiters"), translate := vtTranslate st.table uniq }
-    let env : Env := {
-      pageSize := (kv kvs "pageSize").toNat?.getD 5, selectKeys := hexD (kv kvs "selectKeys"),
-      pageDownCycle := kv kvs "pageDownCycle" == "1", alphabet := alphabet, initials := initials,
-      finals := hexD (kv kvs "finals"), delimiters := hexD (kv kvs "delimiters"),
-      maxCodeLength := (kv kvs "maxCodeLength").toNat?.getD 0, autoSelect := kv kvs "autoSelect" == "1",
-      useSpace := kv kvs "useSpace" == "1",
-      autoClear := match kv kvs "autoClear" with | "auto" => .auto | "manual" => .manual | "max_length" => .maxLength | _ => .none,
-      processors := procs, recompose := compose scfg }
-    some { id := id, env := env, uniq := uniq, express := procs.contains .expressEditor }
+    let hasPunct := kv kvs "punctHalf" != ""
+    match parsePunctMap (kv kvs "punctHalf"), parsePunctMap (kv kvs "punctFull") with
+    | some half, some fullm =>
+      -- outside the model: digit separators (they read the commit history); a punctuation key that is also a letter
+      -- (a segment would carry both tags and hold candidates of both translators)
+      let keys := (half ++ fullm).map (·.1)
+      if hasPunct && (kv kvs "punctDigitSep" != "-" || keys.any (fun b => alphabet.contains b)) then none else
+      let pc : PunctCfg := { half := half, full := fullm, useSpace := kv kvs "punctUseSpace" == "1" }
+      let scfg : SegCfg := { alphabet := alphabet, initials := initials, finals := hexD (kv kvs "finals"),
+                             delimiters := hexD (kv kvs "delimiters"), translate := vtTranslate st.table (uniq && !hasPunct) }
+      let pcfg : PSegCfg := { scfg with punct := pc.mapping full, filter := if uniq then (fun l => dedupByText l []) else (fun l => l) }
+      let env : Env := {
+        pageSize := (kv kvs "pageSize").toNat?.getD 5, selectKeys := hexD (kv kvs "selectKeys"),
+        pageDownCycle := kv kvs "pageDownCycle" == "1", alphabet := alphabet, initials := initials,
+        finals := hexD (kv kvs "finals"), delimiters := hexD (kv kvs "delimiters"),
+        maxCodeLength := (kv kvs "maxCodeLength").toNat?.getD 0, autoSelect := kv kvs "autoSelect" == "1",
+        useSpace := kv kvs "useSpace" == "1",
+        autoClear := match kv kvs "autoClear" with | "auto" => .auto | "manual" => .manual | "max_length" => .maxLength | _ => .none,
+        processors := procs, punct := pc,
+        format := if full then shapeFormat else (fun t => t),
+        recompose := if hasPunct then composeP pcfg else compose scfg }
+      some { id := id, env := env, uniq := uniq, express := procs.contains .expressEditor }
+    | _, _ => none
 
 def hexO (b : Bytes) : String := Hex.encode b
 
 def showTags (t : Tags) : String :=
   let s := (if t.abc then "a" else "") ++ (if t.raw then "r" else "") ++ (if t.partial_ then "p" else "") ++
     (if t.paging then "g" else "") ++ (if t.selectedBeforeEditing then "e" else "") ++ (if t.phony then "h" else "") ++
-    (if t.placeholder then "l" else "")
+    (if t.placeholder then "l" else "") ++ (if t.punct then "u" else "")
   if s == "" then "0" else s
 
 /-- the segment list itself: `|composition input|:` then start-end-length-status-selected_index-tags per segment -/
@@ -144,11 +178,11 @@ def sessStep (st : DState) (cs : Ctx × String) (d : DOp) : (Ctx × String) × S
       let c1 := freshCtx sc (some cs.1)
       ((c1, id), showView (view sc.env c1) ⟨true, []⟩ c1)
   | .api op =>
-    match mkSchema st cs.2 with
-    | none => (cs, "bad-op")
-    | some sc =>
-      let r := apiStep sc.env cs.1 op
+    match mkSchema st cs.2 false, mkSchema st cs.2 true with
+    | some sc, some scFull =>
+      let r := apiStepS (fun b => if b then scFull.env else sc.env) cs.1 op
       ((r.1, cs.2), showView (view sc.env r.1) r.2 r.1)
+    | _, _ => (cs, "bad-op")
 
 def showCur (st : DState) (ret : Bool) : String :=
   match st.svc.lookup st.cur with
